@@ -23,6 +23,8 @@ func main() {
 		text = diffTables(repo)
 	case "textsites":
 		text = textSites(repo)
+	case "sections":
+		text = sections(repo)
 	default:
 		die("unknown translator %q", name)
 	}
